@@ -258,7 +258,31 @@ def rule_entry_value(ck):
     ck.ob("mpt.entry_value", "resolve_registers/caller-saved-registers-invalidated", inval == CALLER_SAVED, f"invalidated: {sorted(inval)}; System V caller-saved: {sorted(CALLER_SAVED)}", rs[0].loc() if rs else "", what="the entry-register snapshot hands out current values of registers that are not preserved across calls")
 
 
+def rule_scope_walk_unbounded(ck):
+    """every `let` opens a nested lexical block: nesting depth grows with the length of a function"""
+    prog = ck.prog
+    ck.rule("loop.scope_walk", "Die::for_each_children_recursive_t (the walk behind `var locals`, `var <name>` and argument lookup) queues every child it visits: the push onto the work queue is not conditioned on a counter compared with a constant — in Rust DWARF each `let` nests one lexical block deeper, so a depth or size cap silently hides the variables declared late in a long function")
+    fs = [f for p, f in prog.fns.items() if p.endswith("Die::for_each_children_recursive_t")]
+    if not ck.ob("loop.scope_walk", "walk/exists", len(fs) >= 1, "", ""):
+        return
+    for n, f in enumerate(fs[:2]):
+        ck.saw(f)
+        pushes = [c for c in f.calls() if re.search(r"VecDeque::<T, A>::push_back$|Vec::<T, A>::push$", c.name)]
+        caps = []
+        for c in pushes:
+            for b, blk in enumerate(f.blocks):
+                t = blk["term"]
+                if t["t"] != "switch" or not f.dominates(b, c.bb):
+                    continue
+                e = expr_of(f, t["discr"], depth=8)
+                if e[0] == "bin" and e[1] in ("Lt", "Le", "Gt", "Ge") and (e[2][0] == "const" or e[3][0] == "const"):
+                    if any(c.bb not in f.reach_from([s_], avoid={b}) for s_ in f.succ(b)):
+                        caps.append(expr_str(e, 5))
+        ck.ob("loop.scope_walk", f"walk#{n}/every-child-is-queued", bool(pushes) and not caps, f"{len(pushes)} queue pushes; caps: {caps}", f.loc(), what="variables declared below a fixed nesting depth are missing from `var locals` and a shadowed outer binding answers for them")
+
+
 def run(ck):
+    rule_scope_walk_unbounded(ck)
     rule_entry_value(ck)
     # "identical names in different frames or recursion depths show that activation's own values": the registers and the
     # frame base of the selected frame come from restore_registers_at_frame / get_cfa (shared with C05)
